@@ -194,6 +194,49 @@ def _check_once(smt2, cfg, timeout_ms):
     return str(r), dt, model, (s.reason_unknown() if r == z3.unknown else '')
 
 
+def _check_pow2_exact(smt2, timeout_ms, lo=-200, hi=200):
+    ctx = z3.Context()
+    s = z3.Solver(ctx=ctx)
+    s.set('timeout', min(timeout_ms, 20000))
+    s.from_string(smt2)
+    apps, seen = [], set()
+    stack = list(s.assertions())
+    while stack:
+        t = stack.pop()
+        if t.get_id() in seen:
+            continue
+        seen.add(t.get_id())
+        if z3.is_quantifier(t):
+            stack.append(t.body())
+            continue
+        if z3.is_app(t):
+            if t.decl().name() in ('pow2', 'pow2i') and t.num_args() == 1:
+                if any(z3.is_var(x) for x in _subterms(t.arg(0))):
+                    return 'unknown', 0.0, None          # a power under a binder: cannot be pinned
+                apps.append(t)
+            stack.extend(t.children())
+    if not apps or len(apps) > 12:
+        return 'unknown', 0.0, None
+    for a in apps:
+        e = a.arg(0)
+        real = a.decl().name() == 'pow2'
+        cases = []
+        for c in range(lo, hi + 1):
+            if not real and c < 0:
+                continue
+            val = (z3.RealVal(2 ** c, ctx) if c >= 0 else z3.Q(1, 2 ** (-c), ctx)) if real else z3.IntVal(2 ** c, ctx)
+            cases.append(z3.And(e == c, a == val))
+        s.add(z3.Or(*cases))
+    t0 = time.time()
+    r = s.check()
+    dt = time.time() - t0
+    model = None
+    if r == z3.sat:
+        m = s.model()
+        model = {d.name(): str(m[d]) for d in m.decls()}
+    return str(r), dt, model
+
+
 def _cvc5(smt2, timeout_ms, strings):
     with tempfile.NamedTemporaryFile('w', suffix='.smt2', delete=False, dir=os.environ.get('PYVC_TMP', None)) as f:
         txt = smt2
@@ -274,6 +317,16 @@ def solve_task(task):
     if r == 'sat':
         return {'idx': idx, 'status': 'refuted', 'backend': 'cvc5', 'time': total, 'model': None, 'tried': tried}
     if len(task) > 6 and task[6]:
+        # the same obligation with every 2**t term pinned to the true power for t in -200..200 (ground, no axioms): a model of
+        # THAT is a genuine counterexample (all powers in it are real powers), so it refutes
+        try:
+            r4, dt4, model4 = _check_pow2_exact(task[6], timeout_ms)
+        except z3.Z3Exception:
+            r4, dt4, model4 = 'unknown', 0.0, None
+        total += dt4
+        tried.append(('z3-default/pow2-exact-in-[-200,200]', r4, round(dt4, 3)))
+        if r4 == 'sat':
+            return {'idx': idx, 'status': 'refuted', 'backend': 'z3-default/pow2-exact', 'time': total, 'model': model4, 'tried': tried}
         # the same obligation with the pow2 axioms dropped (pow2 uninterpreted): a model is only a candidate
         try:
             r3, dt3, model, why = _check_once(task[6], 'z3-default', timeout_ms)
@@ -340,8 +393,9 @@ def discharge(obligations, timeout_s=10, pool=None):
     # second, patient pass for whatever stayed undecided: few processes (the first pass may have been starved by other work
     # on the machine), four times the budget, a long MBQI stage.  Verdicts `proved` / `refuted` of the first pass are final.
     again = [i for i, (r, t) in enumerate(zip(res, tasks)) if r['status'] == 'unknown' and not t[5]]
-    if again and not os.environ.get('PYVC_NO_RETRY'):
-        tasks2 = [tasks[i][:4] + (max(tasks[i][4] * 4, 60000),) + tasks[i][5:7] + (True,) + tasks[i][8:9] for i in again]
+    if again and len(again) <= 12 and not os.environ.get('PYVC_NO_RETRY'):
+        # (many undecided obligations at once mean a changed tree with false obligations, not a starved solver: no second pass)
+        tasks2 = [tasks[i][:4] + (min(max(tasks[i][4] * 3, 45000), 120000),) + tasks[i][5:7] + (True,) + tasks[i][8:9] for i in again]
         pool2 = multiprocessing.get_context('fork').Pool(min(4, len(tasks2)))
         try:
             res2 = pool2.map(solve_task, tasks2, chunksize=1)
